@@ -138,7 +138,8 @@ def findall(lst: list[dict], key: str, value: Any) -> list[dict]:
         assert len(layers) == 2
     """
     key = key.lower()
-    return [item for item in lst if key in item and item[key] and item[key] in value]
+    values = value if isinstance(value, (list, tuple, set, frozenset)) else [value]
+    return [item for item in lst if key in item and item[key] in values]
 
 
 def findunique(lst, key):
